@@ -140,17 +140,19 @@ def run(ctx):
     pipeline.run_in(ctx, ['spectrum'], ('A', 'B', 'C'), plots=['spectra_histogram'])
     tier = ctx.tier
     Ns = [0, 1, 2, 3, 8192, 8193]
-    idx = [0.0, 0.5, 1 - 1e-6, 1.0, 1 + 1e-6, 1.5, 2.0, 2.5, 3.0, 4.0]
+    idx = [0.0, 0.5, 1 - 1e-6, 1.0, 1 + 1e-6, 1.5, 2.0, 2.123456789, 2.5, 3.0, 4.0]
     if tier == "thorough":
         idx = sorted(set(idx + [k * 0.125 for k in range(0, 33)]))
     bnds = [6.0, 6.5, 8.0, 11.5, 12.0]
     pairs = [(a, b) for a, b in itertools.product(bnds, bnds) if a < b]
     # narrow but valid bands (6 <= lower < upper <= 12): the inverse CDF is as exact there as anywhere
     pairs += [(9.0, 9.00005), (10.0, 10.0001), (11.9999, 12.0), (6.0, 6.000001), (8.0, 8.001)]
+    # bounds with many significant digits (nothing may work from a rounded copy of the parameters)
+    pairs += [(6.123456789, 11.987654321), (7.0000004, 9.9999996)]
     ts = t_alphabet(tier)
     ctx.cov["alphabet"] = {"N": Ns, "index": len(idx), "bounds_pairs": len(pairs), "t": len(ts)}
     # mono
-    for logE in [6.0, 8.0, 12.0, 9.25, 8.1, 6.0 + 1.0 / 3.0, 11.999999999999998]:
+    for logE in [6.0, 8.0, 12.0, 9.25, 8.1, 6.0 + 1.0 / 3.0, 11.999999999999998, 9.123456789]:
         for N in Ns:
             spec = {"type": "mono", "logE": logE}
             v, _ = judge(spec, N, ts)
